@@ -19,7 +19,7 @@ import ast
 from hpstatic.effects import writes
 from hpstatic.interp import Interp, expr_term
 from hpstatic.poly import Canon
-from hpstatic.terms import (sym, intern, show, subterms, calls_in, NONE, num, kw,
+from hpstatic.terms import (is_num, sym, intern, show, subterms, calls_in, NONE, num, kw,
                             FALSE)
 from hpstatic.xrnorm import atom_rewrite
 from .theories import detector_decide, IFQ
@@ -63,6 +63,7 @@ def run(check, prog):
     c08.interpolation_windows(check, prog)
     # the seed given to a strategy reaches the subset draw (rule shared with C13)
     c13.wiring(check, prog)
+    point_independence(check, prog)
 
 
 def purity(check, prog):
@@ -517,3 +518,79 @@ def constructors(check, prog):
                   'the lengths of the extra dimensions, handed to data_grid with the '
                   'spacing, name and extra dimensions in their slots', prog.loc(q, fd),
                   fail_detail='returns %s' % show(v)[:200])
+
+
+def point_independence(check, prog):
+    """D4: a theory computes the value at a detector point from that point's own
+    coordinates.  Reading the coordinate of one particular point (positions[k, 0])
+    or an aggregate over all points (mean, min, max of a coordinate row) and using
+    it for every point makes a pixel depend on which other pixels are in the call
+    -- unless the theory first refuses detectors whose points do not share that
+    coordinate (a raise on the spread of the same row)."""
+    TH = 'holopy.scattering.theory.'
+    theories = [TH + 'lens.Lens', TH + 'mielens.MieLens', TH + 'mie.Mie',
+                TH + 'multisphere.Multisphere', TH + 'tmatrix.Tmatrix']
+    AGG = {'mean', 'min', 'max', 'median', 'amin', 'amax', 'average', 'nanmean'}
+    n = 0
+    for T in theories:
+        hit = prog.lookup(T, 'raw_fields')
+        if not hit or hit[0] != 'method':
+            continue
+        q = hit[1] + '.raw_fields'
+        fd = prog.func(q)
+        loc = prog.loc(q, fd)
+        pname = [a.arg for a in fd.args.args[1:] if a.arg.startswith('pos')]
+        if not pname:
+            continue
+        P = sym(pname[0])
+        n += 1
+        it = Interp(prog, max_depth=0)
+        it.types[sym(fd.args.args[0].arg)] = T
+        res = it.analyze(q)
+        terms = [o.value for o in res.returns if o.value is not None]
+        for c in it.calls:
+            terms += list(c['args']) + [v for k, v in c['kwargs']]
+        rows = {}      # coordinate row term -> how it is reduced
+
+        def row_of(t):
+            """t denotes one coordinate row of the positions array?"""
+            if t[0] == 'idx' and t[1] == P and is_num(t[2]):
+                return t
+            return None
+        for t in terms:
+            for x in subterms(t):
+                # positions[k, j] with literal j / positions[k][j]
+                if x[0] == 'idx' and x[1] == P and x[2][0] == 'tuple' and \
+                        len(x[2][1]) == 2 and all(is_num(y) for y in x[2][1]):
+                    rows.setdefault(intern(('idx', P, x[2][1][0])), set()).add(
+                        'point %d' % int(x[2][1][1][1]))
+                if x[0] == 'idx' and is_num(x[2]) and row_of(x[1]) is not None:
+                    rows.setdefault(x[1], set()).add('point %d' % int(x[2][1]))
+                if x[0] == 'call' and isinstance(x[1], str) and \
+                        x[1].rpartition('.')[2] in AGG and x[2] and row_of(x[2][0]) is not None:
+                    rows.setdefault(x[2][0], set()).add(x[1].rpartition('.')[2])
+                if x[0] == 'call' and isinstance(x[1], tuple) and x[1][0] == 'attr' and \
+                        x[1][2] in AGG and row_of(x[1][1]) is not None:
+                    rows.setdefault(x[1][1], set()).add(x[1][2])
+        short = T.rpartition('.')[2]
+        for row, how in sorted(rows.items(), key=lambda kv: show(kv[0])):
+            guarded = False
+            for o in res.raises:
+                for ct, pol in o.cond:
+                    for x in subterms(ct):
+                        if x[0] == 'call' and isinstance(x[1], str) and \
+                                x[1].rpartition('.')[2] == 'ptp' and x[2] and x[2][0] == row:
+                            guarded = True
+                        if x[0] == 'call' and isinstance(x[1], tuple) and \
+                                x[1][0] == 'attr' and x[1][2] == 'ptp' and x[1][1] == row:
+                            guarded = True
+            check.require(guarded, 'D4-point-independence',
+                          '%s.raw_fields %s' % (short, show(row)),
+                          'a coordinate shared by all points (%s of the row) is used '
+                          'only after detectors with differing values are refused'
+                          % ', '.join(sorted(how)), loc,
+                          fail_detail='%s of %s is used for every point and nothing '
+                          'refuses points that differ in it: the value at a point '
+                          'depends on the other points of the call (and on their order)'
+                          % (', '.join(sorted(how)), show(row)))
+    check.floor('theories whose raw_fields was scanned for shared coordinates', n, 4)
